@@ -65,6 +65,10 @@ def path_patterns(tier='quick', alpha='a'):
         for first in ((L(alpha),), (('star',),)):
             pats.append(tuple(first) + (esep,) + tuple(s))
     pats += [(L(alpha), esep, ('sep',), L('b')), (L(alpha), ('sep',), esep, L('b')), (L(alpha), esep, ('star',), esep), (('gs',), esep, ('star',)), (L(alpha), esep, ('gs',), esep, ('q',))]
+    # an extended-group opener that is never closed is literal text (C10): the separators, `**` and escaped separators after it keep their meaning
+    for c in '@+*?':
+        op = (('star',) if c == '*' else ('q',) if c == '?' else L(c))
+        pats += [(op, L('('), L(alpha), ('sep',), ('gs',), ('sep',), L('b')), (op, L('('), L(alpha), esep, L('b')), (op, L('('), ('sep',), ('gs',)), (L('x'), op, L('('), L(alpha), ('sep',), ('gs',), ('sep',), ('q',))]
     # `/` inside brackets and groups: only generated where the statement is definite (none here)
     return list(dict.fromkeys(pats))
 
